@@ -111,17 +111,87 @@ async fn shoot(to: SocketAddr, wire: &[u8], pieces: usize, hold_ms: u64) {
     let _ = tokio::time::timeout(Duration::from_millis(1), s.read(&mut buf)).await;
 }
 
+const WS_UPGRADE: &[u8] = b"GET /ws HTTP/1.1\r\nHost: sim.test\r\nUpgrade: websocket\r\nConnection: Upgrade\r\nSec-WebSocket-Key: dGhlIHNhbXBsZSBub25jZQ==\r\nSec-WebSocket-Version: 13\r\n\r\n";
+
+/// minimal WebSocket client of the harness: upgrade, then every write is one masked binary message
+async fn ws_open(to: SocketAddr) -> Option<TcpStream> {
+    let mut s = TcpStream::connect(to).await.ok()?;
+    s.set_own_styles(0, 0);
+    s.set_peer_read_style(0);
+    s.write_all(WS_UPGRADE).await.ok()?;
+    let mut head = Vec::new();
+    let mut b = [0u8; 1];
+    while !head.ends_with(b"\r\n\r\n") {
+        match tokio::time::timeout(Duration::from_secs(5), s.read(&mut b)).await {
+            Ok(Ok(1)) => head.push(b[0]),
+            _ => return None,
+        }
+    }
+    head.starts_with(b"HTTP/1.1 101").then_some(s)
+}
+
+/// `wire` inside WebSocket binary messages (one per piece) on a fresh, correctly upgraded connection
+async fn shoot_ws(to: SocketAddr, wire: &[u8], pieces: usize, hold_ms: u64) {
+    let Some(mut s) = ws_open(to).await else { return };
+    let n = pieces.max(1);
+    let step = (wire.len() + n - 1) / n;
+    for (i, chunk) in wire.chunks(step.max(1)).enumerate() {
+        if s.write_all(&crate::proxy::ws_frame(chunk, 2, true, i as u64 + 1)).await.is_err() {
+            return;
+        }
+        if n > 1 {
+            tokio::time::sleep(Duration::from_millis(20)).await;
+        }
+    }
+    if wire.is_empty() {
+        let _ = s.write_all(&crate::proxy::ws_frame(&[], 2, true, 9)).await;
+    }
+    if hold_ms > 0 {
+        tokio::time::sleep(Duration::from_millis(hold_ms)).await;
+    }
+    let mut buf = [0u8; 512];
+    let _ = tokio::time::timeout(Duration::from_millis(1), s.read(&mut buf)).await;
+}
+
+/// to the server of this plan: raw bytes on the port, or (WebSocket cells, every other call) inside WebSocket messages
+async fn shoot_server(ws: bool, nth: u64, wire: &[u8], pieces: usize, hold_ms: u64) {
+    if ws && nth % 2 == 0 {
+        shoot_ws(server_addr(), wire, pieces, hold_ms).await
+    } else {
+        shoot(server_addr(), wire, pieces, hold_ms).await
+    }
+}
+
 /// A correct flow from the reference client: true if the target saw `tag` and the strict reference accepted the answer.
 async fn control_tcp(c: &Creds, g: &mut Gen, log: &Arc<Mutex<TLog>>, tag: &[u8]) -> Result<(), String> {
+    control_tcp_via(false, c, g, log, tag).await
+}
+
+async fn control_tcp_via(ws: bool, c: &Creds, g: &mut Gen, log: &Arc<Mutex<TLog>>, tag: &[u8]) -> Result<(), String> {
     let addr = Addr::V4(T_IP, T_PORT);
     let (mut cl, wire) = RefClient::start(c, g, unix_now(), &addr, tag, &ClientOpts::default());
-    let mut s = TcpStream::connect(server_addr()).await.map_err(|e| format!("connect: {e}"))?;
+    let mut s = if ws {
+        ws_open(server_addr()).await.ok_or("websocket upgrade of the control flow failed".to_owned())?
+    } else {
+        TcpStream::connect(server_addr()).await.map_err(|e| format!("connect: {e}"))?
+    };
     s.set_own_styles(0, 0);
+    let wire = if ws { crate::proxy::ws_frame(&wire, 2, true, 77) } else { wire };
     s.write_all(&wire).await.map_err(|e| format!("write: {e}"))?;
     let mut buf = vec![0u8; 4096];
+    let mut inb: Vec<u8> = Vec::new();
     for _ in 0..20 {
         match tokio::time::timeout(Duration::from_millis(200), s.read(&mut buf)).await {
             Ok(Ok(0)) | Ok(Err(_)) => break,
+            Ok(Ok(n)) if ws => {
+                inb.extend_from_slice(&buf[..n]);
+                while let Some((used, opcode, _, payload)) = crate::proxy::ws_parse(&inb) {
+                    inb.drain(..used);
+                    if opcode <= 2 {
+                        cl.feed(&payload)?;
+                    }
+                }
+            }
             Ok(Ok(n)) => cl.feed(&buf[..n])?,
             Err(_) => {}
         }
@@ -233,7 +303,10 @@ pub fn gen_adv(prop: &str, seed: u64, thorough: bool) -> Plan {
     let mut g = Gen::new(seed, if prop == "C06" { 6 } else { 7 });
     let cells = adv_cells();
     let (proto, cipher, n_users) = cells[seed as usize % cells.len()];
-    let mut config = gen_config(&mut g, proto, cipher, Transport::Tcp, n_users);
+    // C07: every third round runs the cell over the WebSocket carrier (raw bytes hit the upgrade parser, wrapped ones the
+    // WebSocketFramed adapter in front of the same decoders)
+    let transport = if prop == "C07" && (seed / cells.len() as u64) % 3 == 2 { Transport::Ws } else { Transport::Tcp };
+    let mut config = gen_config(&mut g, proto, cipher, transport, n_users);
     if proto == Proto::Shadowsocks {
         config.server_mode = "tcp_and_udp".into();
         config.client_mode = "tcp_and_udp".into();
@@ -584,14 +657,30 @@ fn structured_garbage(c: &Creds, g: &mut Gen) -> Vec<u8> {
         Proto::Trojan => {
             // 56 bytes, CR at the right place, anything around
             let mut v = g.bytes(56);
-            if g.chance(50) {
+            if g.chance(30) {
+                // 56 bytes of *valid* UTF-8 with multi-byte characters at odd and even offsets (the key is handled as a str)
+                let pool: [&str; 8] = ["0", "a", "F", "\u{e9}", "\u{4e2d}", "\u{1f600}", "9", "\u{df}"];
+                let mut t: Vec<u8> = Vec::new();
+                while t.len() < 56 {
+                    let ch = *g.pick(&pool);
+                    if t.len() + ch.len() <= 56 {
+                        t.extend_from_slice(ch.as_bytes());
+                    }
+                }
+                v = t;
+            } else if g.chance(50) {
                 for b in v.iter_mut() {
                     *b = *g.pick(b"0123456789abcdefABCDEFg\x80\xc3\xa9\xff ");
                 }
             }
             v.extend_from_slice(b"\r\n");
-            let n = g.range(0, 40) as usize;
-            v.extend(g.bytes(n));
+            if g.chance(60) {
+                // a well-formed rest (command, address, CRLF): the key field is then actually looked at
+                v.extend_from_slice(&[*g.pick(&[1u8, 3, 1, 9]), 1, 127, 0, 7, 1, 0x27, 0x75, b'\r', b'\n', b'x']);
+            } else {
+                let n = g.range(0, 40) as usize;
+                v.extend(g.bytes(n));
+            }
             v
         }
         Proto::Vmess => {
@@ -605,12 +694,71 @@ fn structured_garbage(c: &Creds, g: &mut Gen) -> Vec<u8> {
     }
 }
 
+/// An HTTP/1.x request assembled from grammar pieces: the shapes a proxy's request parser has to take apart
+/// (origin / absolute / authority / asterisk form; schemes, user-info, bracketed literals, ports, paths and queries that
+/// contain ':', '/', '?', '#', '@' and "://" in every order), mostly well-formed up to the blank line.
+fn http_grammar(g: &mut Gen) -> Vec<u8> {
+    let method = *g.pick(&["GET", "POST", "CONNECT", "HEAD", "OPTIONS", "PUT", "get", "G"]);
+    let host = *g.pick(&["example.com", "a", "127.0.0.1", "[::1]", "[::1", "::1]", "", "a.b.c.", "\u{e9}.test", "a b", "%41", "xn--a"]);
+    let port = *g.pick(&["", ":80", ":", ":0", ":65535", ":65536", ":99999999999", ":8o", ":-1", ":80:81"]);
+    let piece = |g: &mut Gen| *g.pick(&["/", "?", "#", ":", "@", "://", "http://", "https://", "a", "b=c", "&", "%", "%zz", ".", "..", "//", " ", "\t", "next=http://x/y", "[", "]"]);
+    let tail: String = (0..g.below(6)).map(|_| piece(g)).collect();
+    let target = match g.below(7) {
+        0 => format!("http://{host}{port}{tail}"),
+        1 => format!("{host}{port}"),
+        2 => format!("/{tail}"),
+        3 => "*".to_owned(),
+        4 => format!("https://{host}{port}/{tail}"),
+        5 => format!("{tail}"),
+        _ => format!("http://user:pw@{host}{port}/{tail}"),
+    };
+    let version = *g.pick(&["HTTP/1.1", "HTTP/1.1", "HTTP/1.0", "HTTP/2", "HTTP/1.", "http/1.1", ""]);
+    let mut req = format!("{method} {target} {version}\r\n");
+    for _ in 0..g.below(4) {
+        req.push_str(*g.pick(&["Host: example.com\r\n", "Host: [::1]:8080\r\n", "Host:\r\n", "Proxy-Connection: keep-alive\r\n", "X: \u{e9}\r\n", ": empty-name\r\n", "Content-Length: 5\r\n"]));
+    }
+    if g.chance(85) {
+        req.push_str("\r\n");
+    }
+    if g.chance(30) {
+        req.push_str("hello");
+    }
+    req.into_bytes()
+}
+
+/// WebSocket upgrade requests: the correct one with its parts varied or missing
+fn upgrade_grammar(g: &mut Gen) -> Vec<u8> {
+    let target = *g.pick(&["/ws", "/", "/other", "?ws", "*", "ws", "http://sim.test/ws", "/ws?a=b#c", "//", "/w s", "", "/\u{e9}"]);
+    let mut req = format!("{} {target} {}\r\n", g.pick(&["GET", "GET", "POST", "get"]), g.pick(&["HTTP/1.1", "HTTP/1.1", "HTTP/1.0", "HTTP/2"]));
+    let headers: [&str; 9] = [
+        "Host: sim.test\r\n",
+        "Upgrade: websocket\r\n",
+        "Connection: Upgrade\r\n",
+        "Sec-WebSocket-Key: dGhlIHNhbXBsZSBub25jZQ==\r\n",
+        "Sec-WebSocket-Version: 13\r\n",
+        "Sec-WebSocket-Key: short\r\n",
+        "Sec-WebSocket-Key: dGhlIHNhbXBsZSBub25jZQ==dGhlIHNhbXBsZSBub25jZQ==\r\n",
+        "Sec-WebSocket-Version: 8\r\n",
+        "Upgrade: h2c\r\n",
+    ];
+    for (i, h) in headers.iter().enumerate() {
+        if (i < 5 && g.chance(85)) || (i >= 5 && g.chance(15)) {
+            req.push_str(h);
+        }
+    }
+    if g.chance(90) {
+        req.push_str("\r\n");
+    }
+    req.into_bytes()
+}
+
 pub fn execute_c07(plan: &Plan) -> Outcome {
     let c = creds(&plan.config);
-    let cell = format!("{}{}", plan.config.family(), if c.user_keys.is_empty() { "" } else { "+users" });
+    let cell = format!("{}{}{}", plan.config.family(), if c.user_keys.is_empty() { "" } else { "+users" }, if plan.config.transport == Transport::Ws { "/ws" } else { "" });
     let round = plan.extra["round"].as_u64().unwrap_or(0);
     let mut g = Gen::new(plan.extra["sub_seed"].as_u64().unwrap_or(1), 71);
     let attacks = plan.extra["attacks"].as_u64().unwrap_or(40);
+    let ws = plan.config.transport == Transport::Ws;
     let out = rt::run_sim(plan.seed, plan.net_seed, plan.knobs.to_knobs(), || async {
         let mut notes: Vec<(String, String)> = Vec::new();
         let mut counts = BTreeMap::<String, u64>::new();
@@ -649,19 +797,20 @@ pub fn execute_c07(plan: &Plan) -> Outcome {
             match i % 5 {
                 0 => {
                     let w = structured_garbage(&c, &mut g);
-                    shoot(server_addr(), &w, g.range(1, 4) as usize, 10).await;
+                    shoot_server(ws, i / 5, &w, g.range(1, 4) as usize, 10).await;
                     bump("structured_garbage_to_server", 1);
                 }
                 1 => {
                     let full = RefClient::start(&c, &mut g, unix_now(), &addr, b"early-close-payload", &ClientOpts::default()).1;
                     let cut = g.range(0, full.len() as u64) as usize;
-                    shoot(server_addr(), &full[..cut], g.range(1, 3) as usize, 0).await;
+                    shoot_server(ws, i / 5, &full[..cut], g.range(1, 3) as usize, 0).await;
                     bump("early_close_of_valid_handshake", 1);
                 }
                 2 | 3 => {
                     let (name, w) = malformed_authenticated(&c, &mut g, i / 5 + round);
                     let before = out_panics();
-                    shoot(server_addr(), &w, 1 + (i % 2) as usize, 20).await;
+                    // (WebSocket cells: always inside messages - the malformed content has to reach the protocol decoder)
+                    shoot_server(ws, 0, &w, 1 + (i % 2) as usize, 20).await;
                     if out_panics() != before {
                         notes.push((format!("panic-on/{name}"), format!("the server panicked on an authenticated but malformed frame: {name}")));
                     }
@@ -669,7 +818,8 @@ pub fn execute_c07(plan: &Plan) -> Outcome {
                 }
                 _ => {
                     // local inbound of the client: HTTP-ish and SOCKS-ish garbage
-                    let w: Vec<u8> = match g.below(6) {
+                    let w: Vec<u8> = match g.below(9) {
+                        6 | 7 | 8 => http_grammar(&mut g),
                         0 => b"GET ".iter().copied().chain(g.bytes(30)).collect(),
                         1 => [&[5u8, g.below(5) as u8][..], &g.bytes(6)].concat(),
                         2 => {
@@ -746,7 +896,15 @@ pub fn execute_c07(plan: &Plan) -> Outcome {
         }
         tokio::time::sleep(Duration::from_millis(200)).await;
         // the service carries on: a correct TCP flow, and a correct local datagram after the malformed ones
-        if let Err(e) = control_tcp(&c, &mut g, &log, b"after-the-barrage").await {
+        if ws {
+            // the upgrade parser of a WebSocket server is network-facing too: well-formed and odd upgrade requests
+            for _ in 0..attacks / 2 {
+                let w = upgrade_grammar(&mut g);
+                shoot(server_addr(), &w, g.range(1, 3) as usize, 5).await;
+                bump("upgrade_requests_to_server", 1);
+            }
+        }
+        if let Err(e) = control_tcp_via(ws, &c, &mut g, &log, b"after-the-barrage").await {
             notes.push(("service-down-after-inputs/tcp".into(), e));
         }
         if plan.config.proto != Proto::Trojan {
